@@ -14,6 +14,41 @@ CLAIMS = {
         "Lean 4 proof (refinement to abstract map, induction over histories) + model/implementation correspondence", "DESIGN.md §6 C07"),
 }
 
+CLAIMS["C09"] = claim("lean-model + harness seq (constructed xxhash64 collisions, key-buffer rewriting)",
+    "Lean 4 theorems for EVERY hash function (collisions included): reads/deletes never touch a foreign key's entry, a collision "
+    "costs at most a miss, and over every history each returned value was written for that very key (C09_values_have_provenance, "
+    "by induction). Correspondence: real backends driven with algebraically constructed xxhash64 collisions, caller key buffers "
+    "overwritten after every call, full-state comparison against the compiled model.",
+    "Aliasing (buffer reuse) is a runtime fact: the model has value semantics, that half is enforced by the adversarial harness only.",
+    "Lean 4 proof (for all hash functions; invariant over histories) + model/implementation correspondence", "DESIGN.md §6 C09")
+CLAIMS["C10"] = claim("lean-model + harness seq",
+    "Lean 4 theorems: effective ttl selection, jitter displacement bounded by |T|*J/2 for every T, J in (0,1], r in [0,1) "
+    "(C10_bounds), jitter never produces 'never expires', read boundary (hit iff now <= E, ExpiredAt = stored E = Walk's value); "
+    "C10_admissible_complete proves the interval test applied to every observed expiry can raise no false alarm in exact arithmetic. "
+    "Correspondence: every real Write bracketed by clock readings, observed expiry checked against the proved interval.",
+    "float64 jitter arithmetic idealised as exact rationals (slack |T|*2^-40+1 ns); clock and rand are inputs.",
+    "Lean 4 proof (integer arithmetic, all inputs) + model/implementation correspondence", "DESIGN.md §6 C10")
+CLAIMS["C11"] = claim("lean-model + harness seq (hook-driven cycles and the real 1ms janitor)",
+    "Lean 4 theorems: a cleanup cycle without limit breach removes exactly the entries expired longer than DeleteExpiredAfter "
+    "(C11_cycle_exactly), lifted to any number of cycles (C11_cycles), and the scan-skip optimisation is sound along every history "
+    "of operations, cycles and restores (C11_scan_skip_sound, invariant by induction). Correspondence: generated histories on all "
+    "three backends with synchronous cycles (verif hook) and with the real janitor goroutine.",
+    "Janitor scheduling is modelled as 'a cycle happens'; real-janitor runs wait for the settled state (bounded 3 s).",
+    "Lean 4 proof (invariant by induction over histories) + model/implementation correspondence", "DESIGN.md §6 C11")
+CLAIMS["C12"] = claim("lean-model + harness seq",
+    "Lean 4 theorems: no breach => no eviction; amount floor(n*a/b), for a count breach kept m with L(b-a) <= m*b < L(b-a)+b; "
+    "every removed entry ranks no higher than every kept one (C12_order via sortedness of mergeSort), soundness of the executable "
+    "order check applied to observed evictions, metric tracks access history. Correspondence: real cleanup cycles around and far "
+    "above the limits, all strategies and fractions, observed victims validated by the proved predicate.",
+    "float64 n*frac idealised by exact rationals (one entry slack only within 2^-20 of an integer); sort.Slice tie order unspecified.",
+    "Lean 4 proof (arithmetic + sortedness, all sizes/fractions/histories) + model/implementation correspondence", "DESIGN.md §6 C12")
+CLAIMS["C18"] = claim("lean-model + harness seq (counting StatsTracker)",
+    "Lean 4 theorem C18_backend_totals: for every history the emitted metric events sum to exactly the operation counts "
+    "(hit+miss+expired = non-skipped reads + entries touched by ExpireAll, write, delete), by induction; the real totals of a "
+    "counting StatsTracker are compared per cache name with the model's totals after every generated script.",
+    "Backend counters only in this check's theorem file so far; Failover counters are compared by the scheduler engine.",
+    "Lean 4 proof (additivity over histories) + model/implementation correspondence", "DESIGN.md §6 C18")
+
 NOT_APPLICABLE = {}
-for _p in ["C01","C02","C03","C04","C05","C06","C08","C09","C10","C11","C12","C13","C14","C15","C16","C17","C18"]:
+for _p in ["C01","C02","C03","C04","C05","C06","C08","C13","C14","C15","C16","C17"]:
     NOT_APPLICABLE[_p] = "check under construction in this round (model slice or theorem not yet committed); will be claimed when its check exists"
